@@ -317,10 +317,11 @@ REAL_KINDS = ['list', 'tuple', 'f8', 'f8-strided', 'f8-list']
 INT_KINDS = ['i8', 'int-list']                 # offered in addition when every value is integral
 INDEX_KINDS = ['list', 'i8', 'i8-strided']
 GRID_KINDS = ['list', 'tuple', 'i8']
+COUNT_KINDS = ['list', 'tuple', 'i8', 'i8-strided']      # sample sizes
 SEQ_KINDS = ['list', 'tuple']
 
 def container(role, kind, values):
-    if role in ('index', 'grid'):
+    if role in ('index', 'grid', 'count'):
         v = [int(x) for x in values]
         if kind == 'list': return list(v)
         if kind == 'tuple': return tuple(v)
@@ -345,6 +346,7 @@ def container(role, kind, values):
 def kinds_for(role, values):
     if role == 'index': return INDEX_KINDS
     if role == 'grid': return GRID_KINDS
+    if role == 'count': return COUNT_KINDS
     if role == 'seq': return SEQ_KINDS
     if role == 'bounds':
         return ['list', 'tuple'] + ([] if any(x is None for x in values) else ['f8'])
@@ -364,13 +366,22 @@ def arg_case_impl(chk, rng, family, fname, opts, make, compare_value=True, pre=N
         return container(role, 'list', values)
     optstr = ','.join('%s=%s' % kv for kv in sorted(opts.items()))
     base_key = '%s.%s' % (family, fname)
+    kw = {}; before = {}
     try:
         f, kw = make(Cref)
+        before = {k: deep_snap(v) for k, v in kw.items()}
         if pre: pre()
         ref = flat_result(f(**kw))
     except Exception as e:
         chk.l3((base_key, optstr, 'reference-raises', type(e).__name__))
-        return
+        ref = None
+    # the reference call itself (private float / int lists): arguments unchanged, whether it returned or raised
+    for k in before:
+        if deep_snap(kw[k]) != before[k]:
+            chk.fail('%s:mutates:%s' % (base_key, k), '%s(%s) modified its argument %s in place (passed as list): %r -> %r' % (
+                fname, optstr, k, rec.get(k, ('', None))[1], kw[k] if not isinstance(kw[k], np.ndarray) else kw[k].tolist()),
+                dict(family=family, function=fname, options=opts, focus=k, kinds={n: 'list' for n in rec}, values={n: v[1] for n, v in rec.items()}))
+    if ref is None: return
     for focus in sorted(rec):
         role, values = rec[focus]
         todo = kinds_for(role, values)
@@ -395,20 +406,26 @@ def arg_case_impl(chk, rng, family, fname, opts, make, compare_value=True, pre=N
                 if pre: pre()
                 r1 = flat_result(f(**kw))
             except Exception as e:
-                # a container type the function does not accept is not a C20 matter; a memory layout is
-                still = False
-                if kind in LAYOUT_KINDS:       # is it the layout of `focus` (everything else a plain list)?
-                    try:
-                        f3, kw3 = make(lambda name, r, vals: container(r, kind if name == focus else 'list', vals))
-                        if pre: pre()
-                        f3(**kw3)
-                    except Exception:
-                        still = True
-                if still:
-                    chk.fail('%s:raises:%s:%s' % (base_key, focus, kind), '%s(%s) raises %r when %s is a %s, but not for a list' % (fname, optstr, e, focus, kind), inp)
-                else:
-                    chk.l3((base_key, 'unsupported-container', focus, kind))
-                r1 = None
+                r1 = None; first_exc = e
+            bad = [k for k, v in kw.items() if deep_snap(v) != before[k]]
+            for k in bad:
+                chk.fail('%s:mutates:%s' % (base_key, k), '%s(%s) modified its argument %s in place (passed as %s): %r -> %r' % (
+                    fname, optstr, k, chosen.get(k, type(kw[k]).__name__), rec.get(k, ('', None))[1], kw[k] if not isinstance(kw[k], np.ndarray) else kw[k].tolist()), inp)
+            if r1 is None:
+                # a container type the function does not accept is not a C20 matter; a memory layout is.  Was it the container of
+                # `focus`, or the (random) container of another argument?  Again with everything else a plain list.
+                f, kw = make(lambda name, r, vals: container(r, kind if name == focus else 'list', vals))
+                for k in chosen: chosen[k] = kind if k == focus else 'list'
+                inp = dict(inp, kinds=dict(chosen))
+                before = {k: deep_snap(v) for k, v in kw.items()}
+                try:
+                    if pre: pre()
+                    r1 = flat_result(f(**kw))
+                except Exception as e:
+                    if kind in LAYOUT_KINDS:
+                        chk.fail('%s:raises:%s:%s' % (base_key, focus, kind), '%s(%s) raises %r when %s is a %s, but not for a list' % (fname, optstr, e, focus, kind), inp)
+                    else:
+                        chk.l3((base_key, 'unsupported-container', focus, kind))
             bad = [k for k, v in kw.items() if deep_snap(v) != before[k]]
             for k in bad:
                 chk.fail('%s:mutates:%s' % (base_key, k), '%s(%s) modified its argument %s in place (passed as %s): %r -> %r' % (
@@ -657,6 +674,210 @@ def l3_argument_effects(chk, ctx, rng, tier):
                 return S.from_phi, dict(phi=phi.copy(), ns=C('ns', 'index', nsf), xxs=C('xxs', 'seq', [xx.copy() for _ in range(dim)]), pop_ids=C('pop_ids', 'seq', ids))
             arg_case(chk, rng, 'Spectrum', 'from_phi', dict(dim=dim), mk)
 
+# ---------------------------------------------------------------- (iv'') demes calls
+# Class: the demes front end (`Demes.SFS`, `Spectrum.from_demes`), the graph utilities and the exporter `Demes.output` leave
+# every list / dict / graph argument unchanged on every route through the ancient-sample machinery — whether the route is selected
+# by an argument (`sample_times` given) or by the RESOLVED sampling times (`sample_times=None` and a sampled deme that ends before
+# the present), with or without unit conversion (graphs in years), slicing (all samples ancient), pulses, admixture, mergers —
+# and give the same value when called again with the very same objects (what an optimiser, or `from_demes` with several grids, does).
+def ids_code(ids):
+    return np.array([float(ord(c)) for c in '|'.join(str(x) for x in (ids or []))] + [-1.0])
+
+def graph_code(g):
+    import json
+    return np.array([float(ord(c)) for c in json.dumps(g.asdict(), sort_keys=True)])
+
+def demes_variants(rng, tier):
+    """demes graphs x sampled demes x sampling times; `cls` names the route through SFS the variant takes"""
+    import demes
+    out = []
+    def add(cls, g, sd, times):
+        out.append(dict(cls=cls, g=g, demes=list(sd), sizes=[int(rng.integers(2, 5)) for _ in sd], times=times))
+    def two(units='generations', gt=None, bend=0.0, mig=True, growth=False, third=None):
+        sc = float(gt or 1.0)
+        T0 = float(rng.integers(200, 400))
+        kw = dict(time_units=units)
+        if gt: kw['generation_time'] = gt
+        b = demes.Builder(**kw)
+        b.add_deme('anc', epochs=[dict(start_size=float(rng.integers(800, 1500)), end_time=T0 * sc)])
+        eA = dict(start_size=float(rng.integers(800, 2500)), end_time=0)
+        if growth: eA['end_size'] = eA['start_size'] * float(rng.uniform(1.5, 3))
+        b.add_deme('A', ancestors=['anc'], epochs=[eA])
+        if third is None:
+            b.add_deme('B', ancestors=['anc'], epochs=[dict(start_size=float(rng.integers(300, 900)), end_time=bend * sc)])
+        else:                  # two successive splits (the front end applies two-way splits only)
+            b.add_deme('BC', ancestors=['anc'], epochs=[dict(start_size=float(rng.integers(300, 900)), end_time=0.5 * T0 * sc)])
+            b.add_deme('B', ancestors=['BC'], epochs=[dict(start_size=float(rng.integers(300, 900)), end_time=bend * sc)])
+            b.add_deme('C', ancestors=['BC'], epochs=[dict(start_size=float(rng.integers(300, 900)), end_time=third * sc)])
+        if mig: b.add_migration(demes=['A', 'B'], rate=float(rng.choice([5e-4, 1e-3])) / sc)
+        return b.resolve(), sc
+    tt = lambda lo, hi: float(rng.integers(lo, hi)) + float(rng.choice([0.0, 0.5]))
+    g, sc = two(growth=bool(rng.integers(2)))
+    add('present:times=None', g, ['A', 'B'], None)
+    add('present:times=zeros', g, ['B', 'A'], [0, 0])
+    add('ancient:times-given', g, ['A', 'B'], [0.0, tt(4, 30)])
+    add('ancient:same-deme-twice', g, ['A', 'A'], [0.0, tt(4, 30)])
+    add('all-ancient:sliced', g, ['A', 'B'], [tt(4, 12), tt(14, 30)])
+    te = tt(4, 30)
+    g, sc = two(bend=te, mig=bool(rng.integers(2)))
+    add('extinct:times=None', g, ['A', 'B'], None)
+    add('extinct:times=None:reordered', g, ['B', 'A'], None)
+    add('extinct:times-given', g, ['A', 'B'], [0.0, te])
+    g, sc = two(third=te, mig=False)
+    add('extinct:one-of-three:times=None', g, ['C', 'A', 'B'], None)
+    gt = float(rng.choice([2.0, 25.0]))
+    g, sc = two('years', gt)
+    add('years:times=None', g, ['A', 'B'], None)
+    add('years:times=zeros', g, ['A', 'B'], [0, 0])
+    add('years:ancient', g, ['A', 'B'], [0.0, tt(4, 30) * sc])
+    g, sc = two('years', gt, bend=te, mig=False)
+    add('years:extinct:times=None', g, ['A', 'B'], None)
+    # pulse
+    b = demes.Builder(time_units='generations')
+    b.add_deme('anc', epochs=[dict(start_size=1000.0, end_time=300)])
+    b.add_deme('A', ancestors=['anc'], epochs=[dict(start_size=float(rng.integers(800, 2500)), end_time=0)])
+    b.add_deme('B', ancestors=['anc'], epochs=[dict(start_size=float(rng.integers(300, 900)), end_time=0)])
+    b.add_pulse(sources=['A'], dest='B', proportions=[float(rng.uniform(0.05, 0.4))], time=20)
+    g = b.resolve()
+    add('pulse:times=None', g, ['A', 'B'], None)
+    add('pulse:ancient-before-pulse', g, ['B', 'A'], [tt(22, 40), 0.0])
+    add('pulse:ancient-after-pulse', g, ['A', 'B'], [0.0, tt(4, 18)])
+    # admixture (parents continue) and merger (parents end)
+    for merge in (False, True):
+        b = demes.Builder(time_units='generations')
+        b.add_deme('anc', epochs=[dict(start_size=1000.0, end_time=300)])
+        endp = 40 if merge else 0
+        b.add_deme('A', ancestors=['anc'], epochs=[dict(start_size=float(rng.integers(800, 2500)), end_time=endp)])
+        b.add_deme('B', ancestors=['anc'], epochs=[dict(start_size=float(rng.integers(300, 900)), end_time=endp)])
+        f = float(rng.uniform(0.2, 0.8))
+        b.add_deme('C', ancestors=['A', 'B'], proportions=[f, 1 - f], start_time=40, epochs=[dict(start_size=float(rng.integers(300, 900)), end_time=0)])
+        g = b.resolve()
+        if merge:
+            add('merge:times=None', g, ['C'], None)
+            add('merge:all-ancient', g, ['C'], [tt(4, 30)])
+        else:
+            add('admix:times=None', g, ['C', 'A', 'B'], None)
+            add('admix:ancient', g, ['A', 'C'], [0.0, tt(4, 30)])
+    if tier != 'quick':
+        return out
+    # quick tier: the routes selected by resolved times / by the argument / through the unit conversion always, a few of the others
+    must = ('extinct:times=None', 'ancient:times-given', 'years:times=zeros', 'years:extinct:times=None')
+    rest = [v for v in out if v['cls'] not in must]
+    pick = [rest[int(i)] for i in rng.choice(len(rest), 7, replace=False)]
+    return [v for v in out if v['cls'] in must] + pick
+
+def plain_case(chk, key, f, kw, inp):
+    """a call without sequence arguments: arguments unchanged, second call with the same objects bit-identical"""
+    if not chk.begin(key, inp): return
+    chk.l3((key,))
+    before = {k: deep_snap(v) for k, v in kw.items()}
+    try:
+        r1 = flat_result(f(**kw))
+    except Exception as e:
+        chk.l3((key, 'raises', type(e).__name__)); return
+    for k in kw:
+        if deep_snap(kw[k]) != before[k]:
+            chk.fail('%s:mutates:%s' % (key.split(':')[0], k), '%s modified its argument %s in place' % (key, k), inp)
+    try:
+        r2 = flat_result(f(**kw))
+    except Exception as e:
+        chk.fail('%s:repeat-raises' % key.split(':')[0], '%s raises %r when called a second time with the same objects' % (key, e), inp); return
+    if r1.shape != r2.shape or not np.array_equal(r1, r2, equal_nan=True):
+        chk.fail('%s:repeat' % key.split(':')[0], '%s called twice with the same objects gives different results' % key, inp)
+
+def l3_demes_effects(chk, ctx, rng, tier):
+    dadi = ctx['dadi']
+    try:
+        import demes
+    except ImportError:
+        chk.l3(('demes', 'not-installed')); return
+    quick = (tier == 'quick')
+    def arg_case(*a, **k):
+        return arg_case_impl(*a, quick=quick, primary=('sampled_demes', 'ids2'), **k)
+    def sfs(**kw):
+        fs = dadi.Demes.SFS(**kw); return [fs, ids_code(fs.pop_ids)]
+    def from_demes(**kw):
+        fs = dadi.Spectrum.from_demes(**kw); return [fs, ids_code(fs.pop_ids)]
+    for rep in range(1 if quick else 2):
+        variants = demes_variants(rng, tier)
+        nfd = 0
+        for vi, v in enumerate(variants):
+            root = v['g'][v['g'].demes[0].name].epochs[0].start_size
+            for fname in ('SFS', 'from_demes'):
+                if quick and fname == 'from_demes' and not (v['cls'] == 'extinct:times=None' or (nfd < 4 and rng.random() < 0.4)):
+                    continue
+                if fname == 'from_demes': nfd += 1
+                extra = {}
+                o = int(rng.integers(3))
+                heavy = v['cls'].startswith('admix')             # four demes alive at once with an ancient sample: python-level 4D integration
+                if o == 1: extra['Ne'] = float(root * rng.choice([0.5, 1.25]))
+                if o == 2 and fname == 'SFS' and not heavy: extra = dict(gamma=float(rng.uniform(-2, 1)), h=float(rng.uniform(0.2, 0.8)), theta=float(rng.choice([1.0, 3.5])))
+                scalar_pts = (fname == 'SFS') or rng.random() < 0.25
+                base = 6 if heavy else int(rng.integers(8, 12))
+                ptsl = [base, base + 2, base + 4]
+                def mk(C, v=v, fname=fname, extra=extra, scalar_pts=scalar_pts, ptsl=ptsl):
+                    kw = dict(g=v['g'], sampled_demes=C('sampled_demes', 'seq', v['demes']), sample_sizes=C('sample_sizes', 'count', v['sizes']))
+                    kw['pts'] = ptsl[1] if scalar_pts else C('pts', 'grid', ptsl)
+                    if v['times'] is not None: kw['sample_times'] = C('sample_times', 'real', v['times'])
+                    elif rng.random() < 0.5: kw['sample_times'] = None
+                    kw.update(extra)
+                    return (sfs if fname == 'SFS' else from_demes), kw
+                arg_case(chk, rng, 'Demes' if fname == 'SFS' else 'Spectrum', fname,
+                         dict(route=v['cls'], options='+'.join(sorted(extra)) or 'default', pts='scalar' if scalar_pts else 'list'), mk)
+        # the graph utilities on the same graphs
+        for v in variants[:: (3 if quick else 1)]:
+            for uname in ('slice', 'swipe'):
+                t = float(rng.integers(2, 60)) * (v['g'].generation_time or 1.0)
+                f = getattr(dadi.Demes.DemesUtil, uname)
+                plain_case(chk, 'DemesUtil.%s:%s' % (uname, v['cls']), lambda g, t, f=f: graph_code(f(g, t)), dict(g=v['g'], t=t), dict(function=uname, route=v['cls'], t=t))
+        # the exporter: a native program run with `deme_ids` lists, exported with / without a name mapping and units
+        xx = dadi.Numerics.default_grid(10)
+        nu1, nu2, T1, T2, fr = [float(x) for x in (rng.uniform(0.5, 2), rng.uniform(0.5, 2), rng.uniform(0.05, 0.2), rng.uniform(0.05, 0.2), rng.uniform(0.05, 0.4))]
+        def program(ids1, ids2, pulse):
+            phi = dadi.PhiManip.phi_1D(xx, deme_ids=ids1)
+            phi = dadi.Integration.one_pop(phi, xx, T1, nu1, deme_ids=ids1)
+            phi = dadi.PhiManip.phi_1D_to_2D(xx, phi, deme_ids=ids2)
+            phi = dadi.Integration.two_pops(phi, xx, T2, nu1, nu2, m12=1.0, m21=0.5, deme_ids=ids2)
+            if pulse:
+                phi = dadi.PhiManip.phi_2D_admix_1_into_2(phi, fr, xx, xx)
+                phi = dadi.Integration.two_pops(phi, xx, T2, nu1, nu2, deme_ids=ids2)
+        for pulse in (False, True):
+            for units in (dict(), dict(Nref=100.0), dict(Nref=100.0, generation_time=2.0)):
+                for mapping in (None, {'west': ['popA'], 'east': ['popB']}, {'root': ['anc', 'popA']}):
+                    if quick and rng.random() < 0.5: continue
+                    def export(ids1, ids2, deme_mapping, pulse=pulse, units=units):
+                        program(ids1, ids2, pulse)
+                        return graph_code(dadi.Demes.output(deme_mapping=deme_mapping, **units))
+                    def mk(C, mapping=mapping, export=export):
+                        return export, dict(ids1=C('ids1', 'seq', ['anc']), ids2=C('ids2', 'seq', ['popA', 'popB']), deme_mapping=copy.deepcopy(mapping))
+                    arg_case(chk, rng, 'Demes', 'output', dict(pulse=pulse, units='+'.join(sorted(units)) or 'scaled', mapping=sorted(mapping) if mapping else None), mk)
+        # the exported graph is a function of the recorded program and of the arguments of THIS call: an earlier export of the
+        # same record (other names, other units) must not show in it
+        for pulse in (False, True):
+            for ids in (None, (['anc'], ['popA', 'popB'])):
+                names = ['d1_1', 'd2_1', 'd2_2'] if ids is None else ['anc', 'popA', 'popB']
+                calls = [dict(), dict(Nref=100.0), dict(Nref=50.0, generation_time=2.0), dict(deme_mapping={'X': [names[1]]}), dict(Nref=100.0, deme_mapping={'Y': [names[0], names[2]]})]
+                for a in range(len(calls)):
+                    for b_ in range(len(calls)):
+                        if a == b_ or (quick and rng.random() < 0.6): continue
+                        first, second = calls[a], calls[b_]
+                        key = 'Demes.output:history'
+                        inp = dict(pulse=pulse, deme_ids=ids, first_call=first, second_call=second)
+                        if not chk.begin('%s:%s:%s:%d:%d' % (key, pulse, ids is not None, a, b_), inp): continue
+                        chk.l3((key, pulse, ids is not None, 'deme_mapping' in first, 'deme_mapping' in second, 'Nref' in first))
+                        try:
+                            program(*( (None, None) if ids is None else copy.deepcopy(ids)), pulse)
+                            alone = graph_code(dadi.Demes.output(**copy.deepcopy(second)))
+                            program(*( (None, None) if ids is None else copy.deepcopy(ids)), pulse)
+                            dadi.Demes.output(**copy.deepcopy(first))
+                            after = graph_code(dadi.Demes.output(**copy.deepcopy(second)))
+                        except Exception as e:
+                            chk.l3((key, 'raises', type(e).__name__)); continue
+                        if alone.shape != after.shape or not np.array_equal(alone, after):
+                            what = 'deme_mapping' if 'deme_mapping' in first else 'units'
+                            chk.fail('%s:%s' % (key, what), 'Demes.output(%s) of a recorded program returns a different graph after an earlier Demes.output(%s) of the same record than without it' % (
+                                ', '.join('%s=%r' % kv for kv in second.items()), ', '.join('%s=%r' % kv for kv in first.items())), inp)
+
 def k_memo(chk, ctx, rng):
     """the real caches behave as the memo model: hit/miss sequences return the function of the key (cache cleared first)"""
     dadi = ctx['dadi']; N = dadi.Numerics
@@ -831,6 +1052,7 @@ def worker_main():
     chk = EventChk(skip)
     l3_layout_and_effects(chk, dict(dadi=dadi), common.Rng(seed, 'C20-layout'), tier)
     l3_argument_effects(chk, dict(dadi=dadi), common.Rng(seed, 'C20-args'), tier)
+    l3_demes_effects(chk, dict(dadi=dadi), common.Rng(seed, 'C20-demes'), tier)
     chk.emit(ev='done')
 
 def layout_isolated(chk, ctx, tier):
@@ -862,8 +1084,8 @@ def layout_isolated(chk, ctx, tier):
 
 def run(chk, ctx):
     tier = ctx['tier']; rng = common.Rng(ctx['seed'], 'C20')
-    chk.rule = ('(i) random interleavings (length 2-40, repeated calls) of 33 kinds of API calls (incl. uncertainty calls on one shared model function with parameters / sample sizes / '
-                'grids from small pools) vs each call in a fresh interpreter, results hashed bit-for-bit; (i\') for every memo table and EVERY input of its cached computation '
+    chk.rule = ('(i) random interleavings (length 2-40, repeated calls) of 35 kinds of API calls (incl. uncertainty calls on one shared model function with parameters / sample sizes / '
+                'grids from small pools, demes calls with ancient samples on one shared set of argument lists, export of a recorded program) vs each call in a fresh interpreter, results hashed bit-for-bit; (i\') for every memo table and EVERY input of its cached computation '
                 '(generated table: usedParams) two otherwise identical calls differing in that input alone, both orders, repeated, vs a fresh interpreter (direct calls, the public '
                 'paths project / from_phi / from_phi_inbreeding, and FIM/GIM/get_godambe/LRT/Wald/score with multinom False and True: function object, one parameter, sample '
                 'size, one grid point, whole grid, grid length, step, data); every memo entry recomputed from its key afterwards; '
